@@ -30,7 +30,12 @@ func (c *brotliDecompressor) Read(bytes []byte) (int, error) {
 	return c.reader.Read(bytes)
 }
 func (c *brotliDecompressor) Reset(rdr io.Reader) error {
-	return c.reader.Reset(rdr)
+	// brotli's Reader keeps input of the previous source that it has not
+	// consumed yet across Reset (for example after "excessive input", or when
+	// the previous source was not read to the end) and would decode it as the
+	// start of the new source. So every source gets a new Reader.
+	c.reader = brotli.NewReader(rdr)
+	return nil
 }
 func (c *brotliDecompressor) Close() error {
 	// brotli's Reader does not expose a Close function
